@@ -336,3 +336,67 @@ func deepInstrs(f *ssa.Function, visit func(g *ssa.Function, tb *TB, b *ssa.Basi
 	}
 	walk(f, NewTB(), 0, nil)
 }
+
+// mapCopy is one key-by-key copy of a map into another: a range loop whose body stores the entry's own value under
+// the entry's own key, or a call of the standard library's maps.Copy.
+type mapCopy struct {
+	Dst, Src ssa.Value
+	Block    *ssa.BasicBlock // the loop's header block (the block of the call for maps.Copy)
+	Idx      int             // position of the call inside its block (maps.Copy)
+	Cond     bool            // the store is guarded by a condition tested inside the loop: not every entry is copied
+	Pos      token.Pos
+}
+
+func mapCopies(f *ssa.Function) []mapCopy {
+	var out []mapCopy
+	for _, b := range f.Blocks {
+		for i, in := range b.Instrs {
+			switch x := in.(type) {
+			case *ssa.MapUpdate:
+				kx, isK := x.Key.(*ssa.Extract)
+				vx, isV := x.Value.(*ssa.Extract)
+				if !isK || !isV || kx.Tuple != vx.Tuple || kx.Index != 1 || vx.Index != 2 {
+					continue
+				}
+				nx, ok := kx.Tuple.(*ssa.Next)
+				if !ok {
+					continue
+				}
+				rg, ok := nx.Iter.(*ssa.Range)
+				if !ok {
+					continue
+				}
+				mc := mapCopy{Dst: x.Map, Src: rg.X, Block: nx.Block(), Pos: x.Pos()}
+				for _, fc := range factsAt(b) {
+					if ex, isEx := fc.cond.(*ssa.Extract); isEx && ex.Tuple == ssa.Value(nx) && ex.Index == 0 {
+						continue
+					}
+					if ci, isI := fc.cond.(ssa.Instruction); isI && ci.Block() != nil && nx.Block().Dominates(ci.Block()) {
+						mc.Cond = true
+					}
+				}
+				out = append(out, mc)
+			case *ssa.Call:
+				cal := x.Common().StaticCallee()
+				if cal == nil || len(x.Common().Args) != 2 {
+					continue
+				}
+				if o := cal.Origin(); o != nil {
+					cal = o
+				}
+				if cal.Pkg != nil && cal.Pkg.Pkg.Path() == "maps" && cal.Name() == "Copy" {
+					out = append(out, mapCopy{Dst: x.Common().Args[0], Src: x.Common().Args[1], Block: b, Idx: i, Pos: x.Pos()})
+				}
+			}
+		}
+	}
+	return out
+}
+
+// before: copy a is completed before copy b starts, on every path that runs both.
+func (a mapCopy) before(b mapCopy) bool {
+	if a.Block == b.Block {
+		return a.Idx < b.Idx
+	}
+	return a.Block.Dominates(b.Block) && !b.Block.Dominates(a.Block)
+}
